@@ -19,7 +19,7 @@ import (
 	"bytes"
 	"context"
 	"crypto/sha256"
-	_ "crypto/sha512"
+	"crypto/sha512"
 	"encoding/hex"
 	"encoding/json"
 	"errors"
@@ -710,6 +710,13 @@ func callPack(sp *spec, p content.Pusher) (ocispec.Descriptor, error) {
 			PackImageManifest: sp.Fn == "rc2", ConfigDescriptor: cfg, ConfigAnnotations: cloneAnn(sp.ConfigAnn)})
 	}
 	panic("fn " + sp.Fn)
+}
+
+// descOf512 describes data by its SHA-512 digest (registered algorithm, other blob directory /
+// key space in every target).
+func descOf512(mt string, data []byte) ocispec.Descriptor {
+	h := sha512.Sum512(data)
+	return ocispec.Descriptor{MediaType: mt, Digest: digest.Digest("sha512:" + hex.EncodeToString(h[:])), Size: int64(len(data))}
 }
 
 func descOf(mt string, data []byte) ocispec.Descriptor {
